@@ -1,7 +1,6 @@
 (** Model of tree/treegen.go: RandomUniformBinaryTree, RandomYuleBinaryTree,
     RandomCaterpillarBinaryTree, RandomBalancedBinaryTree, StarTree, StarTreeFromName,
-    AllTopologies / allTopologies_recur, with tree/tree.go GraftTipOnEdge, RerootFirst, Clone
-    and the crash of ReinitIndexes (ComputeEdgeHashes) on a tree whose root is a tip.
+    AllTopologies / allTopologies_recur, with tree/tree.go GraftTipOnEdge, RerootFirst, Clone.
     No proofs in this file.
 
     Randomness: every generator is a function of
@@ -35,7 +34,8 @@ Definition tip_name (i : nat) : string := String.append "Tip" (itoa i).
 Definition tip_node (nm : string) : utree := UNode nm [] [None].
 Definition tipn (i : nat) : utree := tip_node (tip_name i).
 
-(** ** results: Go returns (tree, err), or panics *)
+(** ** results: Go returns (tree, err); [GPanic] is what the judge records when the real code
+    panics (no modelled path panics since ReinitIndexes accepts a tip root) *)
 Inductive gres : Type :=
 | GOk (t : utree)
 | GErr (msg : string)
@@ -111,12 +111,12 @@ Definition reroot_first (t : utree) : res utree :=
 
 (** the tail shared by the three insertion generators:
       if !rooted { err = t.RerootFirst() } ; t.ReinitIndexes() ; return t, err
-    ReinitIndexes -> ComputeEdgeHashes dereferences a nil edge when the root is a tip. *)
+    (the error of ReinitIndexes is dropped; a non-nil err makes every caller drop the tree). *)
 Definition finish (rooted : bool) (t : utree) : gres :=
-  let r := if rooted then Ok t else reroot_first t in
-  let t' := match r with Ok t' => t' | Err _ => t end in
-  if is_tip t' then GPanic
-  else match r with Ok t'' => GOk t'' | Err m => GErr m end.
+  match (if rooted then Ok t else reroot_first t) with
+  | Ok t' => GOk t'
+  | Err m => GErr m
+  end.
 
 Definition err_lt2 := "Cannot create an unrooted random binary tree with less than 2 tips".
 Definition err_lt3 := "Cannot create a rooted random binary tree with less than 3 tips".
@@ -244,13 +244,11 @@ Fixpoint bal_rec (d : nat) (ls : list Q) (id : nat) : list slot * list Q * nat :
     end
   end.
 
-(** UnRoot() ends with ReinitIndexes(), as does the generator: the crash on a tip root again *)
 Definition balanced_tree (depth : nat) (rooted : bool) (ls : list Q) : gres :=
   if Nat.ltb depth 1 then GErr "Cannot create an random binary tree of depth < 1"
   else
     let t := UNode "" [] (fst (fst (bal_rec depth ls 0))) in
-    let t' := if rooted then t else unroot t in
-    if is_tip t' then GPanic else GOk t'.
+    GOk (if rooted then t else unroot t).
 
 Definition balanced_plan (depth : nat) : list draw :=
   if Nat.ltb depth 1 then [] else repeat DFloat (2 ^ (S depth) - 2).
@@ -282,8 +280,9 @@ Fixpoint grafts (tip : utree) (t : utree) : list utree :=
   end.
 
 (** Tree.Clone: copyTreeRecur connects the copy of a child to the copy of its parent first,
-    so the parent slot comes first in every copied node; CopyEdge does not copy comments *)
-Definition clone_e (e : einfo) : einfo := mkE (elen e) (esup e) (epv e) [].
+    so the parent slot comes first in every copied node; CopyEdge copies length, support,
+    p-value and comments *)
+Definition clone_e (e : einfo) : einfo := mkE (elen e) (esup e) (epv e) (ecom e).
 Fixpoint clone_sub (t : utree) : utree :=
   match t with
   | UNode n c sl =>
